@@ -147,6 +147,11 @@ def oracle_C03(ctx, cases, answers):
         if " s=PANIC" in a and not c["req"].startswith("shape ") and ("p=OK:" in a or "b=OK:" in a):
             v.append((i, "to_string() of a PURL with a built-in type parameter panics instead of producing the documented string"))
             continue
+        if a == "PANIC" and c["req"].split(" ")[0] in ("parse", "build") and c.get("shape") in ("S", "M", "P", "CB", "CO"):
+            # the whole request died: parsing, building and printing with a built-in type parameter never panic (the one
+            # documented panic of Display needs an invalid type, which build() refuses first)
+            v.append((i, "the request panics: no canonical string is produced for %s" % c["req"][:120]))
+            continue
         for label, p, s in ok_purls(a):
             if s is None or "bad" in p:
                 continue
